@@ -12,6 +12,7 @@ mod c07;
 mod c09;
 mod c10;
 mod c11;
+mod c12;
 mod c13;
 mod c14;
 mod c15;
@@ -65,7 +66,8 @@ fn main() {
         "C01" => { c01::search(&mut rng, budget, &mut fails); if fails.is_empty() { c06::search(&mut rng, budget / 4, &mut fails); } }
         "C07" => c07::search(&mut rng, budget, &mut fails),
         "C06" => c06::search(&mut rng, budget, &mut fails),
-        "C11" | "C12" => c11::search(&mut rng, budget, &mut fails),
+        "C11" => c11::search(&mut rng, budget, &mut fails),
+        "C12" => { c12::search(&mut rng, budget, &mut fails); if fails.is_empty() { c11::search(&mut rng, budget / 4, &mut fails); } }
         "C09" => c09::search(&mut rng, budget, &mut fails),
         "C13" => c13::search(&mut rng, budget, &mut fails),
         "C13-gap" => c13::search_gap(&mut rng, budget, &mut fails, 26 * 3600),
